@@ -44,9 +44,17 @@ func (b *Builder) AddWithSequence(key, value []byte, seqNum uint64) error {
 			string(key), string(b.lastKey))
 	}
 
+	// Copy the value, keeping the difference between an empty value (non-nil)
+	// and a tombstone (nil)
+	var valueCopy []byte
+	if value != nil {
+		valueCopy = make([]byte, len(value))
+		copy(valueCopy, value)
+	}
+
 	b.entries = append(b.entries, Entry{
-		Key:         append([]byte(nil), key...),   // Make copies to avoid references
-		Value:       append([]byte(nil), value...), // to external data
+		Key:         append([]byte(nil), key...), // Make copies to avoid references
+		Value:       valueCopy,                   // to external data
 		SequenceNum: seqNum,
 	})
 
